@@ -269,7 +269,7 @@ impl<'a> Lexer<'a> {
     #[allow(dead_code)]
     pub fn seek_newline(&mut self) -> Substr{
         let start = self.pos;
-        while self.buf[self.pos] != b'\n' 
+        while self.pos < self.buf.len() && self.buf[self.pos] != b'\n'
             && self.incr_pos() { }
         self.incr_pos();
 
@@ -345,7 +345,7 @@ impl<'a> Lexer<'a> {
 
     #[inline]
     fn incr_pos(&mut self) -> bool {
-        if self.pos >= self.buf.len() - 1 {
+        if self.pos + 1 >= self.buf.len() {
             false
         } else {
             self.pos += 1;
